@@ -181,6 +181,12 @@ func (c *Ctx) Sample(v interface{}) {
 	}
 }
 
+// RestartWorker asks an isolated worker subprocess to checkpoint and exit after this case so
+// that the parent starts a fresh process for the rest (used after a case made the code under
+// test reserve a lot of address space, which ulimit -v would otherwise hold against later,
+// innocent cases).  No effect for in-process harnesses.
+func (c *Ctx) RestartWorker() { c.st.restart = true }
+
 // Cap records that a budget/cap was hit: the run is then not exhaustive.
 func (c *Ctx) Cap(what string) { c.st.caps[what]++ }
 
@@ -212,6 +218,7 @@ type localStats struct {
 	sampleSeen     int64
 	maxDepth       int
 	maxDevs        int
+	restart        bool
 }
 
 func newLocalStats() *localStats {
